@@ -213,6 +213,14 @@ def main(tier):
             cs = cs + devs
         for i in range(0, len(cs), 800):
             jobs.append((lang, style, verb, [], cs[i:i + 800]))
+    # the inputs of the repository's own tests (they reach rules the grammar does not): English in every style and verbosity, every other
+    # language in each style at one verbosity (thorough: all)
+    tests = canon_run.test_cases(private_use=False)
+    run.count("test_suite_expressions", len(tests))
+    for lang, style, verb in lattice.speech_configs():
+        if tier == "thorough" or lang == "en" or verb == "Medium":
+            for i in range(0, len(tests), 500):
+                jobs.append((lang, style, verb, [], tests[i:i + 500]))
     nchars = 0
     for lang in langs:
         chars = [(f"char:{fn}:{c}", char_term(c)) for fn, c in table_chars(lang)] + [(f"char:none:{c}", char_term(c)) for c in NO_TABLE]
@@ -254,7 +262,7 @@ def main(tier):
         rule="all spine terms of G to depth 2 and the trigger terms in all 45 language x style x verbosity configurations; single deviations "
              "(degenerate / invisible-operator children, insertions, deletions) of every depth-1 term (thorough: also of the trigger terms) in every language "
              "and style (quick: Terse and Verbose; thorough: all); one token context for every key of each language's unicode.yaml and unicode-full.yaml "
-             "(read with yaml-rust) and for characters in no table; seven preference sets (capital letters, overrides, impairment, and the engine-only preferences Bookmark / Pitch / Rate / Volume / PauseFactor / MathRate / beep) on a reduced corpus. "
+             "(read with yaml-rust) and for characters in no table; the MathML inputs of the repository's own tests that contain no private-use characters (English: every style and verbosity; other languages: Medium; thorough: all); seven preference sets (capital letters, overrides, impairment, and the engine-only preferences Bookmark / Pitch / Rate / Volume / PauseFactor / MathRate / beep) on a reduced corpus. "
              "Per case: speech, overview and four navigation reads. distinct_nontrivial = distinct (configuration, speech) pairs",
         assumptions=["input alphabets contain no private-use characters, so documented pass-through of unknown characters cannot trip the check",
                      "navigation reads are checked for cleanliness only (they may legitimately fail or be empty)"],
